@@ -292,3 +292,37 @@ def seed_from_env():
         return int(os.environ.get("VERIF_SEED", "1"))
     except ValueError:
         return 1
+
+
+# --------------------------------------------------------------------------------------------
+# Generic trace validation (Good \/ (~ENABLED Good /\ MISMATCH /\ Resync) idiom + high-water mark)
+# --------------------------------------------------------------------------------------------
+class TraceResult:
+    def __init__(self):
+        self.mismatches = []   # (line, raw tuple string)
+        self.rejected = None   # line at which no step at all was possible
+        self.invariant = None  # violated invariant name (state invariant on a bound state)
+        self.tlc = None
+
+
+def validate_trace(workdir, module, trace_path, cfg=None, timeout=1800, depth_first=False, extra_files=None):
+    files = {"trace.ndjson": trace_path}
+    files.update(extra_files or {})
+    r = run_tlc(workdir, module, cfg=cfg, workers=1, timeout=timeout, files=files, depth_first=depth_first)
+    tr = TraceResult()
+    tr.tlc = r
+    if r.timed_out:
+        raise Infra("trace validation timed out (%s)" % module)
+    for m in tlc_prints(r.out, "MISMATCH"):
+        mm = re.match(r'<<\s*"MISMATCH",\s*(\d+),\s*(.*)>>\s*$', m, re.S)
+        if mm:
+            tr.mismatches.append((int(mm.group(1)), mm.group(2).strip()))
+    rej = tlc_prints(r.out, "REJECTED_AT_LINE")
+    if rej:
+        mm = re.match(r'<<\s*"REJECTED_AT_LINE",\s*(\d+)', rej[0])
+        tr.rejected = int(mm.group(1))
+    tr.invariant = r.invariant
+    if not r.ok and tr.rejected is None and tr.invariant is None:
+        raise Infra("TLC error while validating trace with %s:\n%s" % (module, r.out[-3000:]))
+    clean_tlc_dir(workdir)
+    return tr
